@@ -8,11 +8,16 @@
 //!   --variant E::V=.ctor  Lean constructor of an enum variant     (default `.v`, first letter lower-cased)
 //!   --import M / --open N Lean imports / opened namespaces        (default Evenio.Generated.Rs2LeanPrelude / Evenio.Rs2Lean)
 //!   --label TEXT          how the source file is named in the output (default: the path given)
+//!   --field S.f=name      Lean field name of the Rust field `f` of struct `S` (`S.f.m`: member `m` of the union-typed field `f`)
+//!   --inactive U.m=term   the value the field of union member `m` gets in a union literal that initialises another member
+//!   --prim 'SIG=term'     a function / constant taken as given: `T::f(A, B) -> R`, `T::f(self, A) -> R`, `T::C: R`; `_` = identity
+//!   --struct S            emit a Lean structure for the struct `S` of the file (PhantomData fields dropped)
+//! a function name may be `Type::name` (a method of another impl of the same file; emitted as `Type.name`)
 use rs2lean::{translate, Options};
 use std::process::ExitCode;
 
 fn usage() -> ExitCode {
-    eprintln!("usage: rs2lean <file.rs> <ImplType> <fn> [<fn> …] [--namespace NS] [--self-type T] [--type R=L]… [--tyvar v]… [--variant E::V=ctor]… [--import M]… [--open N]… [--label TEXT]");
+    eprintln!("usage: rs2lean <file.rs> <ImplType> <fn> [<fn> …] [--namespace NS] [--self-type T] [--type R=L]… [--tyvar v]… [--variant E::V=ctor]… [--import M]… [--open N]… [--label TEXT] [--field S.f=name]… [--inactive U.m=term]… [--prim SIG=term]… [--struct S]…");
     ExitCode::from(2)
 }
 
@@ -39,8 +44,18 @@ fn main() -> ExitCode {
                 "import" => o.imports.push(v),
                 "open" => o.opens.push(v),
                 "label" => o.source_label = v,
-                "type" | "variant" => match pair(&v) {
+                "struct" => o.structs.push(v),
+                "prim" => match v.rsplit_once('=') {
+                    Some((a, b)) => o.prims.push((a.trim().to_string(), b.trim().to_string())),
+                    None => {
+                        eprintln!("rs2lean: --prim expects SIG=term, got `{v}`");
+                        return usage();
+                    }
+                },
+                "type" | "variant" | "field" | "inactive" => match pair(&v) {
                     Some(p) if flag == "type" => o.type_map.push(p),
+                    Some(p) if flag == "field" => o.field_map.push(p),
+                    Some(p) if flag == "inactive" => o.inactive.push(p),
                     Some(p) => o.variant_map.push(p),
                     None => {
                         eprintln!("rs2lean: --{flag} expects A=B, got `{v}`");
